@@ -4,7 +4,7 @@ tier=${1:-quick}
 cd /verif
 for id in $(python3 -c "import json;print(' '.join(c['property_id'] for c in json.load(open('MANIFEST.json'))['checks']))"); do
   s=$(date +%s)
-  out=$(./check $id $tier 2>&1); code=$?
+  out=$(timeout ${RUN_ALL_TIMEOUT:-3600} ./check $id $tier 2>&1); code=$?
   e=$(( $(date +%s) - s ))
   echo "$id exit=$code ${e}s :: $(echo "$out" | grep -E "^$id $tier:" | cut -c1-200)"
   echo "$out" | grep -E "^(VIOLATION|CHECK-PROBLEM|KNOWN-FINDING|INCONCLUSIVE)" | head -5
